@@ -144,6 +144,9 @@ func c08Setup() (*c08World, error) {
 		return nil, err
 	}
 	q.Target = &c08Tap{inner: dm.(module.DeliveryTarget), cw: cw}
+	// as a queue initialised from configuration has them (hostname is a required directive)
+	q.hostname = "mx.verif.example"
+	q.autogenMsgDomain = "verif.example"
 	q.Log = log.Logger{Out: log.NopOutput{}}
 	if err := q.start(1); err != nil {
 		return nil, err
